@@ -126,3 +126,44 @@ Theorem C01_old_min_choice_refuted :
     map (ctx_eval (f32_sem_old o) min_arena (fun _ => fzero)) [2] = [fzero].
 Proof. exact flatten_f32_old_min_counterexample. Qed.
 Print Assumptions C01_old_min_choice_refuted.
+
+(* The f32 instance, with no hypothesis left: for every arena a Context can build, the tape
+   SsaTape::new produces evaluates bit-for-bit (Leibniz equality on binary32 values, all
+   NaNs being one value) to Context::eval of every root. *)
+From FV Require Import F32Facts FlattenF32Uncond.
+Theorem C01_flatten_correct_f32 :
+  forall (o : oracle) (env : nat -> f32) (arena : list (cnode f32)) (roots : list nat)
+         (t : ssa_tape f32) (vars : varmap),
+    arena_ok arena roots -> flatten arena roots = Ok (t, vars) ->
+    eval_outputs (f32_sem o) (t_ops t) (length roots) (map env vars)
+    = map (ctx_eval (f32_sem o) arena env) roots.
+Proof. exact flatten_correct_f32_all. Qed.
+Print Assumptions C01_flatten_correct_f32.
+
+(* ---- C01, end to end, on f32 --------------------------------------------------------
+   For every expression graph a Context can build, every list of roots, every register
+   budget 3..255 and every assignment of the variables: compilation succeeds, and the
+   interpreter's outputs on the compiled register tape (from ANY stale slot contents)
+   are bit-for-bit the direct operation-by-operation evaluation of each root. *)
+Theorem C01_compiled_tape_computes_the_expression :
+  forall (o : oracle) (arena : list (cnode f32)) (roots : list nat) (n : nat),
+    arena_ok arena roots -> 3 <= n -> n <= 255 ->
+    exists (t : ssa_tape f32) (vars : varmap) (rt : list (op f32)) (slots : nat),
+      flatten arena roots = Ok (t, vars) /\
+      reg_tape_new n (t_ops t) = Ok (rt, slots) /\
+      forall (env : nat -> f32) (stale : Tape.env),
+        m_out (eval_tape (f32_sem o) rt (map env vars) stale (fresh_out (f32_sem o) (length roots)))
+        = map (ctx_eval (f32_sem o) arena env) roots.
+Proof.
+  intros o arena roots n OK H3 H255.
+  destruct (@flatten_total f32 arena roots OK) as (t & vars & Hf).
+  destruct (@flatten_wf f32 arena roots t vars OK Hf) as (Hwf & _).
+  destruct (alloc_correct f32 f32 (f32_sem o) n (t_ops t) H3 H255 Hwf) as (rt & slots & Ha & Hobs).
+  exists t, vars, rt, slots. split; [exact Hf|]. split; [exact Ha|].
+  intros env stale.
+  rewrite <- (flatten_correct_f32_all o env arena roots t vars OK Hf).
+  unfold eval_outputs.
+  destruct (Hobs (map env vars) (fresh_env (f32_sem o)) stale (fresh_out (f32_sem o) (length roots))) as [E _].
+  symmetry. exact E.
+Qed.
+Print Assumptions C01_compiled_tape_computes_the_expression.
